@@ -11,7 +11,10 @@ Case (driver "schedule"):
      l_listen_c / l_listen_s   per-object listener (a%2) on live object b  (circuit.listen / stream.listen)
      l_unlisten_c / _s         remove registration number a (obj.unlisten) - global or per-object listener
      w_built / w_closed        circuit.when_built() / when_closed() on known circuit a (b%4==0: incl. gone ones)
-     q_close_c / q_close_s     Circuit.close() / Stream.close() on live object a (c%6==0: on a gone one)
+     q_close_c / q_close_s     Circuit.close() / Stream.close() on live object a (c%6==0: on a gone one;
+                               c%6==5: requested twice in a row; c%3==1: tor's reply is not delayed;
+                               b%4==3: tor refuses the command with 552 because it is tearing the object down
+                               itself - the object is dying and x_gone / c_close / s_close report it gone)
      ack                       tor's reply to the oldest unanswered CLOSECIRCUIT/CLOSESTREAM arrives
      x_gone                    tor reports an object whose close it accepted CLOSED/FAILED (= the c_close/s_close
                                world op aimed at that object)
@@ -67,12 +70,19 @@ ASSUMPTIONS = [
     "notification for it; the statement does not say)",
     "the CLOSED that tor prints for a connection it already reported FAILED: every listener may get zero or "
     "one stream_closed for it (the stream was already gone from the state)",
-    "kwargs of closed/failed/detach notifications must contain every keyword of the event in upper and lower "
-    "case; extra keys are tolerated; the circuit/stream/router arguments are compared by id / id_hex",
+    "kwargs of closed/failed/detach notifications are exactly the keywords of that event, each under its "
+    "upper-case and its lower-case name, with the event's values (the unchanged tree passes no other, constant "
+    "kwargs, so none are allowed - in particular no keyword of an earlier event of the same object); the "
+    "circuit/stream/router arguments are compared by id / id_hex",
     "wait results are compared by outcome (pending/succeeded/failed) and timing, not by value",
     "a close() issued on an object already reported gone may complete any way or never (only 'at most once' "
     "is checked for it); when tor answered 552 to a close command for an object, outcomes of the close "
     "requests for that object are not compared with each other",
+    "a CLOSE* command may be refused (552 Unknown ...) although the controller still lists the object, because "
+    "tor has just marked it for close itself; its CLOSED/FAILED event follows, before or after the 552. The "
+    "close waits of that object may then fail early (before the gone event) or complete at the gone event, "
+    "succeeding or failing; they must never succeed before the gone event and must be complete once the "
+    "object is reported gone and every reply has arrived",
     "between the CLOSED/FAILED event and a still outstanding acknowledgement a close wait may be pending or "
     "complete; it must be complete once every acknowledgement has arrived",
     "build_circuit(): a circuit is never reported CLOSED/FAILED while the '250 EXTENDED id' reply that announces "
@@ -233,6 +243,11 @@ def _match(call, spec):
                 return ("flag-missing-upper-case", "%s kwargs %r lack %s=%s" % (name, kw, k, v))
             if kw.get(k.lower()) != v:
                 return ("flag-missing-lower-case", "%s kwargs %r lack %s=%s" % (name, kw, k.lower(), v))
+        want = set(extra) | set(k.lower() for k in extra)
+        more = sorted(k for k in kw if k not in want)
+        if more:
+            return ("carries-keyword-tor-did-not-send-with-this-event",
+                    "%s kwargs have %r, the event only had %r (all kwargs: %r)" % (name, more, sorted(extra), kw))
     return None
 
 
@@ -316,7 +331,9 @@ def judge_waits(res, waits, final, where):
             what = "Circuit.close()" if w.kind == "close_c" else "Stream.close()"
             if not w.alive_at_request:
                 continue
-            if not m.gone and out != "pending":
+            if not m.gone and out == "failed" and w.tainted:
+                pass            # tor refused the command: failing the wait right away is acceptable
+            elif not m.gone and out != "pending":
                 res.bad("%s-completed-before-gone" % w.kind,
                         "%s: %s on %r completed (%s) but tor has not reported it CLOSED/FAILED" % (
                             where, what, m, w.watch.outcome()[:2]))
@@ -329,6 +346,8 @@ def judge_waits(res, waits, final, where):
                     tag = "%s-never-completes/requested-twice" % w.kind
                 else:
                     tag = "%s-never-completes" % w.kind
+                if w.tainted:
+                    tag += "/command-was-refused"
                 res.bad(tag, "%s: %s on %r still pending although tor reported it %s and every command was "
                         "acknowledged (%d requests while alive)" % (where, what, m, m.gone, n_same))
     if final:
@@ -469,11 +488,12 @@ class Run(object):
             if rp.status in ("CLOSED", "FAILED") and not rp.zombie:
                 for wt in self.waits:
                     if wt.m is rp.obj and wt.kind in ("close_c", "close_s") and wt.cmd_index is not None:
+                        refused = sess.close_replies[wt.cmd_index]["code"] != 250
                         if wt.cmd_index >= self.acks_sent:
                             self.reversed_ack = True
-                            res.label("gone-event-before-ack")
+                            res.label("gone-event-before-" + ("552-refusal" if refused else "ack"))
                         else:
-                            res.label("ack-before-gone-event")
+                            res.label(("552-refusal" if refused else "ack") + "-before-gone-event")
             self.note_objects()
             return
         # ---- schedule ops: nothing they trigger is judged as a notification
@@ -513,7 +533,17 @@ class Run(object):
                      if live[k].inc in l.reg and live[k].inc not in l.multi and k in objs]
             if pairs:
                 l, m = pairs[a % len(pairs)]
-                objs[m.id].unlisten(l.rec)
+                try:
+                    objs[m.id].unlisten(l.rec)
+                except ValueError as e:
+                    # the model says this listener is registered on this object (directly or as a global
+                    # listener that existing/new objects must be given); unlisten() not finding it means it
+                    # was never attached
+                    res.bad("listener/registered-listener-not-attached-to-object",
+                            "step %r: unlisten of %s listener on %s %d raised %r" % (
+                                s, "global" if l.is_global else "per-object", "circuit" if kind == "c" else "stream",
+                                m.id, e))
+                    return
                 l.reg.discard(m.inc)
                 res.label("listener-removed" + ("/global" if l.is_global else ""))
         elif op in ("w_built", "w_closed"):
@@ -540,8 +570,14 @@ class Run(object):
             if cand:
                 m, obj = cand[a % len(cand)]
                 n0 = len(sess.close_lines)
+                if b % 4 == 3 and m.gone is None:
+                    sess.close_refuse = True        # tor is just tearing it down itself: 552, the event follows
                 d = obj.close()
                 sess.pump()
+                if sess.close_refuse:
+                    sess.close_refuse = False       # no command reached tor now (repeated request / queued)
+                elif b % 4 == 3 and m.gone is None and len(sess.close_lines) > n0:
+                    res.label(kind + "-refused-while-listed")
                 if c % 3 == 1 and sess.held:
                     self.do_ack()           # this time tor's reply is not delayed
                 cmd_index = n0 if len(sess.close_lines) > n0 else None
@@ -549,11 +585,17 @@ class Run(object):
                 self.waits.append(Wait(kind, m, obj, d, m.gone is None, bool(m.gone), cmd_index))
                 if m.gone is None:
                     res.label(kind + ("-repeated" if repeated else "-requested"))
+                    if c % 6 == 5:
+                        # the caller asks again straight away (before any reply or event)
+                        self.waits.append(Wait(kind, m, obj, obj.close(), m.gone is None, bool(m.gone), None))
+                        sess.pump()
+                        res.label(kind + "-repeated")
                 else:
                     res.label(kind + "-on-gone-object")
         elif op == "x_gone":
             # tor carries out a close it has accepted: the object whose close was requested goes away
-            cand = [m for m in list(w.circuits.values()) + list(w.streams.values()) if m.close_requested]
+            cand = [m for m in list(w.circuits.values()) + list(w.streams.values())
+                    if m.close_requested or m.dying]
             cand.sort(key=lambda m: m.inc)
             if cand:
                 ws = w.close_step_for(cand[a % len(cand)])
@@ -823,6 +865,26 @@ def run(ctx):
 
 
 MUTANTS = [
+    ("stream-flags-accumulate-across-events", "txtorcon/stream.py",
+     "        kw = find_keywords(args)\n        self.flags = kw\n",
+     "        self.flags.update(find_keywords(args))\n        kw = self.flags\n"),
+    ("circuit-flags-accumulate-across-events", "txtorcon/circuit.py",
+     "        kw = find_keywords(args)\n        self.flags = kw\n",
+     "        self.flags.update(find_keywords(args))\n        kw = self.flags\n"),
+    ("closed-kwargs-carry-an-extra-constant", "txtorcon/circuit.py",
+     "                x.circuit_closed(self, **flags)", "                x.circuit_closed(self, id=self.id, **flags)"),
+    ("stream-close-forgets-wait-when-command-refused", "txtorcon/stream.py",
+     "        d.addCallback(close_command_is_queued)\n        return self._closing_deferred",
+     "        d.addCallbacks(close_command_is_queued, lambda f: (setattr(self, '_closing_deferred', None), f)[1])\n"
+     "        return self._closing_deferred"),
+    ("circuit-close-forgets-wait-when-command-refused", "txtorcon/circuit.py",
+     "        d = self._torstate.close_circuit(self.id, **kw)\n        d.addCallback(close_command_is_queued)\n        return d",
+     "        d = self._torstate.close_circuit(self.id, **kw)\n"
+     "        d.addCallbacks(close_command_is_queued, lambda f: (setattr(self, '_closing_deferred', None), f)[1])\n        return d"),
+    ("circuit-close-ignores-refusal-and-event", "txtorcon/circuit.py",
+     "        d = self._torstate.close_circuit(self.id, **kw)\n        d.addCallback(close_command_is_queued)\n        return d",
+     "        d = self._torstate.close_circuit(self.id, **kw)\n"
+     "        d.addCallbacks(close_command_is_queued, lambda f: defer.Deferred())\n        return d"),
     ("extend-reply-id-kept-as-string", "txtorcon/torstate.py",
      "        circ_id = int(circ_id)\n        circ = self._maybe_create_circuit(circ_id)\n        circ.update([str(circ_id), 'EXTENDED'])",
      "        circ = self._maybe_create_circuit(circ_id)\n        circ.update([circ_id, 'EXTENDED'])"),
